@@ -15,6 +15,8 @@
 package searcher
 
 import (
+	"bytes"
+
 	"github.com/blugelabs/bluge/search"
 )
 
@@ -28,6 +30,12 @@ func NewTermRangeSearcher(indexReader search.Reader,
 
 	if max != nil && inclusiveMax {
 		max = append(max, 0)
+	}
+
+	// an inverted or empty range selects nothing (the dictionary iterator
+	// would still return the end key when it starts out positioned on it)
+	if max != nil && bytes.Compare(min, max) >= 0 {
+		return NewMatchNoneSearcher(indexReader, options)
 	}
 
 	fieldDict, err := indexReader.DictionaryIterator(field, nil, min, max)
